@@ -117,7 +117,7 @@ def check_log(log, expected, markets, triggers, allowed=None):
             c = upd_count[(i, m)]
             if c != 1:
                 R.bad("update", "market-update-not-exactly-once-per-bar", f"count={'0' if c == 0 else '2+'}",
-                      f"bar {i} ({expected[i] if i < N else '?'}): update() of market {m} ran {c} times")
+                      f"bar {i} ({expected[i] if i < N else '?'}): update() of market {m} ran {c} times", {"market": m})
 
     for e in log:
         k = e[0]
@@ -130,7 +130,7 @@ def check_log(log, expected, markets, triggers, allowed=None):
                 R.ev += 1
                 if nxt < N and ts != expected[nxt]:
                     R.bad("set_market_status", "start-of-bar-refresh-carries-other-bar", _rel(expected, nxt, ts),
-                          f"market {m} refreshed with {ts} before bar {nxt} = {expected[nxt]}")
+                          f"market {m} refreshed with {ts} before bar {nxt} = {expected[nxt]}", {"market": m})
                 elif nxt >= N:
                     R.bad("run", "bar-beyond-index", "set_market_status",
                           f"market {m} refreshed with {ts} after the last expected bar {expected[-1] if N else None}")
@@ -139,7 +139,7 @@ def check_log(log, expected, markets, triggers, allowed=None):
                 R.stats["set_in_bar"] += 1
                 if ts != expected[bar]:
                     R.bad("set_market_status", "in-bar-refresh-carries-other-bar", _rel(expected, bar, ts),
-                          f"market {m} refreshed with {ts} inside bar {bar} = {expected[bar]}")
+                          f"market {m} refreshed with {ts} inside bar {bar} = {expected[bar]}", {"market": m})
             continue
 
         if k == "HB":
@@ -148,16 +148,12 @@ def check_log(log, expected, markets, triggers, allowed=None):
                 R.bad("run", "phase-order", f"{hook}-inside-{open_hook or 'update'}", f"{hook} entered while {open_hook or open_upd} is running")
             if hook == INIT:
                 n_init += 1
-                R.ev += 1
-                if stage != PRE or n_init > 1:
-                    R.bad("run", "phase-order", f"initialize-after-{stage}", "initialize() not called exactly once before the first bar")
+                if stage != PRE or n_init > 1:  # not the statement's subject: counted only
+                    R.stats["initialize_not_once_before_first_bar"] += 1
                 open_hook = INIT
                 continue
             if hook == FINAL:
                 n_final += 1
-                R.ev += 1
-                if stage not in (AFTER,) and N > 0:
-                    R.bad("run", "phase-order", f"finalize-after-{stage}", f"finalize() entered after {stage}")
                 close_bar(bar)
                 R.ev += 1
                 if bar != N - 1:
@@ -168,7 +164,7 @@ def check_log(log, expected, markets, triggers, allowed=None):
                 continue
             if hook == BEFORE:
                 R.ev += 1
-                if stage not in (INIT, AFTER):
+                if stage not in (PRE, INIT, AFTER):
                     R.bad("run", "phase-order", f"before_bar-after-{stage}", f"before_bar({ts}) entered in stage {stage} of bar {bar}")
                 close_bar(bar)
                 bar += 1
@@ -197,7 +193,7 @@ def check_log(log, expected, markets, triggers, allowed=None):
                         c = upd_count[(bar, m)]
                         if c == 0:
                             R.bad("update", "market-not-updated-before-after_bar", "after_bar",
-                                  f"bar {bar}: after_bar entered but update() of {m} has not run in this bar")
+                                  f"bar {bar}: after_bar entered but update() of {m} has not run in this bar", {"market": m})
             # what the strategy can see: every market is at this bar; one history row per finished bar
             if 0 <= bar < N and obs is not None:
                 for m, mts in obs.get("mts", {}).items():
@@ -247,7 +243,7 @@ def check_log(log, expected, markets, triggers, allowed=None):
             if stage != ONBAR or open_hook is not None:
                 R.bad("update", "update-outside-window", f"{'inside-' + open_hook if open_hook else 'after-' + stage}",
                       f"bar {bar}: update() of {m} entered {('inside ' + open_hook) if open_hook else ('after ' + stage)}; "
-                      "must run after on_bar and before after_bar")
+                      "must run after on_bar and before after_bar", {"market": m})
             upd_count[(bar, m)] += 1
             open_upd = m
             continue
@@ -344,11 +340,11 @@ def check_log(log, expected, markets, triggers, allowed=None):
             continue
 
     R.ev += 1
-    if n_final != 1:
-        R.bad("run", "phase-order", "finalize-count", f"finalize() called {n_final} times")
+    if n_final == 0:  # the statement does not speak of finalize(); the bars are judged all the same
+        R.stats["no_finalize"] += 1
         close_bar(bar)
         if bar != N - 1:
-            R.bad("run", "bars-not-visited", "no-finalize", f"log ends after bar {bar}, expected {N} bars")
+            R.bad("run", "bars-not-visited", "last-bar-dropped" if bar == N - 2 else "several", f"log ends after bar {bar}, expected {N} bars")
     R.ev += 1
     if len(R.bars) != N:
         R.bad("run", "bar-count", "more" if len(R.bars) > N else "fewer", f"{len(R.bars)} bars visited, expected {N}")
